@@ -12,7 +12,7 @@ from simkit import batch
 from simkit.batch import dd_list
 from simkit.values import T, fingerprint, norm, same
 
-MAXO = {1: 4, 2: 2, 3: 1}  # per-axis order bound
+MAXO = {0: 0, 1: 4, 2: 2, 3: 1}  # per-axis order bound (0 parameters: the single order ())
 NAMES = "ABCD"
 
 
@@ -299,7 +299,7 @@ class Prop:
     def generate(self, r, tier, idx):
         if r.random() < 0.15:
             return self.gen_R(r, tier)
-        ninf = r.choice([1, 1, 1, 2, 2, 3])
+        ninf = r.choice([1, 1, 1, 2, 2, 3] * 3 + [0])  # now and then series without any perturbation parameter
         herm = r.choice(["none"] * 5 + ["adjpair"] * 2 + ["sandwich", "nonadjoint"])
         if herm == "adjpair":
             K = 2
@@ -337,7 +337,7 @@ class Prop:
                             "chain_dep": r.random() < 0.15,  # evaluating an element first evaluates the previous order of the same factor
                             "late_eval": r.random() < 0.2,  # BlockSeries(data=...) first, `.eval = ...` assigned afterwards
                             "scale": r.choice([0, 0, 0, 3, 6, 9, 12])})  # float values of magnitude 10**-scale
-        cap = {1: 4, 2: 3, 3: 2}[ninf]
+        cap = {0: 0, 1: 4, 2: 3, 3: 2}[ninf]
         case = {"K": K, "ninf": ninf, "dims": dims, "herm": herm, "domain": domain, "op": opname, "factors": factors,
                 "sizes": [r.choice([1, 2]) for _ in range(3)], "cap": cap}
         if r.random() < 0.08:
@@ -352,7 +352,7 @@ class Prop:
             case["dims"] = [dd] * (K + 1)
             case["same_object"] = sorted(r.sample(range(K), 2)) if K > 2 and r.random() < 0.5 else list(range(K))
             dims = case["dims"]
-        if r.random() < 0.12:
+        if r.random() < 0.12 and ninf:
             # a factor handed over as a finite-index *view* of the caller's series (full slices / permutation-free lists)
             case["view_factor"] = [r.randrange(K), r.choice(["ss", "ls", "sl", "off", "perm", "off", "perm"])]
         # schedule
@@ -481,6 +481,10 @@ class Prop:
 
     # ------------------------------------------------------------------ execution
     def execute(self, case):
+        if case.get("witness"):
+            from simkit import witness
+
+            return witness.run(case["witness"])
         from simkit.values import TracerOverflow
 
         if case.get("family") == "R":
@@ -554,7 +558,7 @@ class Prop:
                         bump("dynamic_discipline_checked")
                         if not ok:
                             dyn_bad.append((k, index))
-                    if chain and index[2] >= 1:
+                    if chain and len(index) > 2 and index[2] >= 1:
                         # the caller's factor is itself a recurrence: this element looks at the previous order first
                         roots[k][(index[0], index[1], index[2] - 1, *index[3:])]
                         bump("factor_chain_dep")
@@ -599,7 +603,7 @@ class Prop:
                 tables[k] = tables[so[0]]
             bump("same_object_factors")
         roots = list(factors)  # the caller's own series (a factor may be handed over as a view of one)
-        vf = case.get("view_factor")
+        vf = case.get("view_factor") if ninf else None
         if vf and vf[0] < K and vf[1] in ("off", "perm") and not case.get("same_object"):
             # the factor is a view that does not start at the first block row of the caller's series ("off": one more leading
             # row, declared absent at zeroth order) or takes the rows in reversed order ("perm"); the caller's declared zeros
@@ -782,6 +786,8 @@ class Prop:
                     requested.discard((i, j, *n))
                 events.append(("popp", opi))
                 continue
+            if kind in ("view", "vget") and not ninf:
+                continue  # without perturbation parameters a finite index is a complete index: there are no views
             if kind == "view":
                 _, i, j, label = op
                 if i >= dims[0] or j >= dims[-1]:
@@ -1006,6 +1012,8 @@ class Prop:
             yield {**case, "domain": "tracer"}
 
     def match_known(self, case, violation):
+        if case.get("witness"):
+            return case["witness"] if violation["class"] == "known-witness" else None
         info = violation.get("info", {})
         if case.get("family") == "R":
             return None
@@ -1017,7 +1025,7 @@ class Prop:
     def witnesses(self):
         # 1x1 blocks, A = 1 + 3*lambda, B = 1 + 2*lambda (both Hermitian, commuting), operator = mul, hermitian=True:
         # order 1 of A*B is 5; the half-sum returns 2*A0*B1 = 4.
-        return {"C18/hermitian-halfsum-nonadjoint": {
+        return {"C18/one-plus-term": {"witness": "C18/one-plus-term"}, "C18/hermitian-halfsum-nonadjoint": {
             "K": 2, "ninf": 1, "dims": [1, 1, 1], "herm": "nonadjoint", "domain": "tracer", "op": "mul",
             "factors": [{"pz": 0.0, "start_zero": False, "ones": False, "fseed": 1},
                         {"pz": 0.0, "start_zero": False, "ones": False, "fseed": 2}],
